@@ -551,9 +551,25 @@ func checkPositionalTarget(p *Prog, r *Report, okFns map[*ssa.Function]bool) {
 		}
 		r.Check(ok, "C02.R2", name, pos, "a target argument that is present is always handed to the IPv4-only target parser (paths that skip it fail or have an empty argument list)", why, path...)
 	}
-	if n < 3 {
-		r.Viol("C02.R2", "positional-target/sites", "-", "the packet-scan family, the generic family and the arp command each parse their target argument", fmt.Sprintf("found %d functions", n))
+	// every command hands its positional argument to the target parser: the parser is statically reachable
+	// from each of the RunE closures, and at least one function that indexes the argument list was examined
+	nCmd, missing := 0, ""
+	for _, fn := range p.SrcFuncs() {
+		if fn.Pkg != p.SPkg("command") || !isRunE(fn) {
+			continue
+		}
+		nCmd++
+		reaches := false
+		for g := range p.staticReach(fn) {
+			if okFns[g] {
+				reaches = true
+			}
+		}
+		if !reaches {
+			missing = FuncName(fn)
+		}
 	}
+	r.Check(n >= 1 && nCmd >= 11 && missing == "", "C02.R2", "positional-target/sites", "-", "every command reaches the IPv4-only target parser and the functions that index the argument list were examined", fmt.Sprintf("examined %d functions, %d commands, not reaching the parser: %s", n, nCmd, missing))
 }
 
 // ---- R3 ----
@@ -570,7 +586,55 @@ func isFilterCtor(f *ssa.Function) bool {
 func isContainerField(s *Seg, v ssa.Value) bool {
 	v = s.Resolve(v)
 	fvar := fieldVarOfLoad(v)
-	return fvar != nil && types.TypeString(fvar.Type(), nil) == ipContainerT
+	if fvar != nil && types.TypeString(fvar.Type(), nil) == ipContainerT {
+		return true
+	}
+	// a parameter (possibly captured by a deferred closure) of a shared builder: every call site binds it
+	// to an options container field
+	if theProg == nil || types.TypeString(v.Type(), nil) != ipContainerT {
+		return false
+	}
+	for i := 0; i < 6; i++ {
+		if fv, isFV := v.(*ssa.FreeVar); isFV {
+			b := BindingOf(fv)
+			if b == nil {
+				return false
+			}
+			v = b
+			continue
+		}
+		// a captured parameter lives in a cell: *cell with the parameter as the only value ever stored
+		if u, isU := v.(*ssa.UnOp); isU && u.Op == token.MUL {
+			cell := u.X
+			if fv, isFV := cell.(*ssa.FreeVar); isFV {
+				if b := BindingOf(fv); b != nil {
+					cell = b
+				}
+			}
+			if a, isA := cell.(*ssa.Alloc); isA {
+				if st := theProg.StoresToAlloc(a); len(st) == 1 {
+					v = st[0]
+					continue
+				}
+			}
+		}
+		break
+	}
+	prm, isP := v.(*ssa.Parameter)
+	if !isP {
+		return false
+	}
+	args := theProg.ArgsBoundTo(prm)
+	if len(args) == 0 {
+		return false
+	}
+	for _, a := range args {
+		fo := fieldVarOfLoad(a)
+		if fo == nil || types.TypeString(fo.Type(), nil) != ipContainerT {
+			return false
+		}
+	}
+	return true
 }
 
 // containerNilFact: what the path knows about <opts>.<IPContainer field> == nil.
@@ -913,8 +977,10 @@ func checkFilterStage(p *Prog, r *Report) {
 				continue
 			}
 			for _, o := range p.Origins(s.Resolve(s.Exit.(*ssa.Return).Results[0])) {
-				if mc, isMC := o.(*ssa.MakeChan); isMC && mc.Parent() == fn {
-					made = true
+				if mc, isMC := o.(*ssa.MakeChan); isMC && (mc.Parent() == fn || (mc.Parent().Pkg == fn.Pkg && p.staticReach(fn)[mc.Parent()])) {
+					made = true // made here, or in a helper of the package called from here (never the delegate's own: that comes from an interface call)
+				} else if isNilConst(o) {
+					// the helper's failure return; on this non-failing path its error was tested nil
 				} else {
 					okOut, whyOut = false, "an accepting path returns "+s.Term(s.Exit.(*ssa.Return).Results[0])+" (the unfiltered stream of the delegate)"
 				}
